@@ -52,6 +52,7 @@ type BrokerOpts struct {
 	Refuse       func(n int) byte                 // CONNACK return code for the n-th CONNECT (0 = accept)
 	SubCode      func(filter string, q byte) byte // SUBACK return code policy
 	Mute         bool                             // consume but never answer (withheld acknowledgements)
+	NoConnack    bool                             // CONNECT is consumed and never answered
 	ReuseIDs     bool                             // a new message takes the lowest identifier no open transaction holds (reuse right after PUBACK/PUBCOMP)
 }
 
@@ -107,6 +108,9 @@ func (b *Broker) Pending(c *Conn) bool { return c.bpkt < len(c.Pkts) }
 func (b *Broker) send(c *Conn, p Packet) {
 	if b.Opts.Mute && p.Type != CONNACK {
 		return
+	}
+	if b.Opts.NoConnack && p.Type == CONNACK {
+		return // the handshake never completes
 	}
 	if b.Hold != nil && b.Hold(c, p) {
 		b.Held = append(b.Held, HeldPkt{c, p})
